@@ -379,6 +379,11 @@ def run(ctx):
     if os.path.exists(os.path.join(common.COQ, "C01", "Model.vo")):
         hdr = ctx.header(["Common.PyFloat", "ModelTree", "Model"])
         bad, log = ctx.eval_cases(hdr, "case", "check_case", coq_cases, shard=40)
+        # how many generated models satisfy the hypothesis (wfb) of the route theorem -- measured, not required
+        hdr2 = ctx.header(["Common.PyFloat", "ModelTree", "Proofs3", "Model"])
+        notwf, log2 = common.coq_eval_cases("C01", hdr2, "case", "(fun c => wfb float (c_tree c))", coq_cases, ctx.rundir, tag="wf", shard=40)
+        if notwf is not None:
+            ctx.notes["route_theorem_hypothesis_wfb"] = {"models": len(coq_cases), "satisfy_wfb": len(coq_cases) - len(notwf)}
         for b in (bad or [])[:5]:
             i, phase = coq_idx[b]
             ctx.failure("correspondence", "[%s] Coq model and implementation disagree" % phase, cases[i],
